@@ -9,15 +9,15 @@ from common import *  # noqa
 BASE = ALL_PATTERNS
 
 
-def replay(prop, tlc, seed, per_scn, backends="default", threads=12, dh=None, extra=()):
-    names = name_table()
+def replay(prop, tlc, seed, per_scn, backends="default", threads=12, dh=None, extra=(), hfs=False):
+    names = name_table_hfs() if hfs else name_table()
     resf = os.path.join(WORK, tlc["name"], "result.json")
     args = ["replay", "--prop", prop, "--scn", tlc["out"], "--names", names, "--seed", str(seed),
             "--per-scn", str(per_scn), "--backends", backends, "--threads", str(threads),
             "--result", resf, "--replay-dir", REPLAYS] + list(extra)
     if dh:
         args += ["--dh", dh]
-    rc, out = harness(args)
+    rc, out = harness(args, hfs=hfs)
     res = json.load(open(resf))
     log(f"replay {tlc['name']}: {res['instances']} instances, {res['calls']} calls, {res.get('violations_total', 0)} violations")
     os.remove(tlc["out"])       # scenario dumps are large; the replay files keep what matters
@@ -41,7 +41,15 @@ def require_causes(res, needed):
     return res
 
 
+_EXTRA = None      # (tlc runs, replay results, rule suffix) of the hfs-build legs of the property being checked
+
+
 def merge(level, tlcs, reps, rule, assumptions, extra_cov=None):
+    global _EXTRA
+    if _EXTRA:
+        tlcs, reps, rule = list(tlcs) + _EXTRA[0], list(reps) + _EXTRA[1], rule + _EXTRA[2]
+        extra_cov = dict(extra_cov or {}, hfs_build_instances=sum(r["instances"] for r in _EXTRA[1]))
+        _EXTRA = None
     viol = []
     for r in reps:
         viol += r["violations"]
@@ -595,11 +603,11 @@ def c16(tier, seed):
 
 def c11(tier, seed):
     if tier == "quick":
-        c = dict(FullRollback=True, PatSetS=BASE, PskSetS=[[], [0], [2]], Depth=7, MaxFail=2, EmitEdges=True)
+        c = dict(FullRollback=True, PatSetS=BASE, PskSetS=[[], [0], [2]], Depth=7, MaxFail=2, EmitEdges=True, HfsS=False)
         per = 1
     else:
         c = dict(FullRollback=True, PatSetS=BASE, PskSetS=[[], [0], [1], [2], [3], [4], [0, 2]], Depth=9, MaxFail=3,
-                 EmitEdges=True)
+                 EmitEdges=True, HfsS=False)
         per = 2
     t = run_tlc("MC_StateMachine", c, invariants=["InvS"], name="c11-sm", timeout=3000, view="ViewS",
                 action_constraint="EmitEdge")
@@ -621,7 +629,7 @@ def c11(tier, seed):
 
 
 def c12(tier, seed):
-    t1 = run_tlc("MC_Builder", dict(FullRollback=True, PatSetB=BASE, BuilderDhs=["25519", "P256"]), invariants=["PrereqSane"], name="c12-builder",
+    t1 = run_tlc("MC_Builder", dict(FullRollback=True, PatSetB=BASE, BuilderDhs=["25519", "P256"], HfsB=False), invariants=["PrereqSane"], name="c12-builder",
                  workers=1, timeout=1200)
     r1 = replay("C12", t1, seed, 1, threads=14)
     # a PSK that was not supplied is an error AT THE MESSAGE THAT NEEDS IT, and set_psk then lets it proceed
@@ -674,7 +682,7 @@ def c13(tier, seed):
                        "--out", nd])
     nstr = json.loads(out.strip().splitlines()[-1])["strings"]
     os.environ["NAMES_FILE"] = nd
-    t = run_tlc("MC_NamesJudge", {}, invariants=["Finished"], name="c13-judge", workers=1, timeout=3000)
+    t = run_tlc("MC_NamesJudge", {"HfsBuild": False}, invariants=["Finished"], name="c13-judge", workers=1, timeout=3000)
     del os.environ["NAMES_FILE"]
     bad = [json.loads(json.loads(ln[len('<<"BAD", '):-3 + 1].rstrip(">")))
            for ln in open(t["out"]) if ln.startswith('<<"BAD"')]
@@ -701,6 +709,44 @@ def c13(tier, seed):
                     "verbatim name, error class) record with ParseName of spec/NoiseNames.tla; distinct_nontrivial = strings "
                     "that must be rejected", exhaustive=False)
     os.remove(nd)
+    # the hfs build has another parsing function: the same treatment on the second harness, over the hfs names AND the
+    # default names (which the hfs build must still accept), judged with ParseNameH(_, TRUE)
+    allf = os.path.join(d, "allnames.out")
+    with open(allf, "w") as f:
+        f.write(open(name_table_hfs()).read())
+        f.write(open(names).read())
+    hseeds, hrnd = (20, 3000) if tier == "quick" else (600, 100000)
+    rc, out = harness(["names", "--names", allf, "--seed", str(seed + 7), "--seeds", str(hseeds), "--random", str(hrnd),
+                       "--out", nd], hfs=True)
+    hstr = json.loads(out.strip().splitlines()[-1])["strings"]
+    os.environ["NAMES_FILE"] = nd
+    th = run_tlc("MC_NamesJudge", {"HfsBuild": True}, invariants=["Finished"], name="c13-judge-hfs", workers=1, timeout=3000)
+    del os.environ["NAMES_FILE"]
+    hbad = [json.loads(json.loads(ln[len('<<"BAD", '):-3 + 1].rstrip(">")))
+            for ln in open(th["out"]) if ln.startswith('<<"BAD"')]
+    hj = [ln for ln in open(th["out"]) if ln.startswith('<<"JUDGED"')]
+    if not hj:
+        raise ToolError("names judge (hfs build) did not finish")
+    hacc = int(hj[0].strip().rstrip(">").split(",")[-1])
+    for b in hbad[:12]:
+        p = os.path.join(REPLAYS, "C13", "hfs-" + hashlib.sha256(b["s"].encode()).hexdigest()[:16] + ".json")
+        json.dump(dict(property="C13", build="hfs", string=b["s"], verdict=b["verdict"], observed=b["rec"]), open(p, "w"))
+        viol.append(dict(op="parse(hfs build)", what=b["verdict"], cause="", expected="grammar of spec/NoiseNames.tla (ParseNameH, hfs build)",
+                         observed=json.dumps(b["rec"])[:200], replay=p, name=b["s"]))
+    cov["states"] += th["distinct"]
+    cov["transitions"] += th["states"]
+    cov["traces_validated_against_impl"] += hstr
+    cov["evaluations"] += hstr
+    cov["distinct_nontrivial"] += hstr - hacc
+    cov["hfs_build"] = dict(strings_judged=hstr, strings_accepted=hacc, mismatches=len(hbad),
+                            names_enumerated=count_lines(allf, "NAME"))
+    cov["rule"] += ("; HFS BUILD (another parsing function): all 25 272 hfs names (35 interactive patterns x psk sets x hfs before/"
+                    "after the psk modifiers x 2 DH x Kyber1024 x 3 ciphers x 4 hashes; round trip checked by TLC, and each must be "
+                    "REJECTED by the default grammar) plus the 13 344 default names are parsed by the hfs build of the crate, then the "
+                    "same generic edits (with KEM/hfs fragments) and random strings; TLC judges each record with ParseNameH(s, TRUE): "
+                    "'hfs' is a modifier, the DH field may be <dh>+<kem>, a KEM is named iff hfs is present")
+    os.remove(nd)
+    os.remove(allf)
     to, ro = odd_names_leg("C13", tier, seed)
     viol += ro["violations"]
     cov["states"] += to["distinct"]
@@ -845,18 +891,18 @@ def c10(tier, seed):
                      Profiles=["small"])
         r1 = replay("C10", t1, seed, 1, threads=14)
         sm = dict(FullRollback=True, PatSetS=["N", "NN", "XX", "IK", "X1X1", "K", "KX1"], PskSetS=[[], [0], [1]], Depth=7,
-                  MaxFail=3, EmitEdges=True)
+                  MaxFail=3, EmitEdges=True, HfsS=False)
         sessions = 150000
     else:
         t1 = session("c10-faults", FaultBudget=1, PskMode="single", PubLens=[32, 65], InitPads=[False], Variants=["tr", "sl"],
                      TrafficMode="short", Profiles=["small", "max"])
         r1 = replay("C10", t1, seed, 2, threads=14)
-        sm = dict(FullRollback=True, PatSetS=BASE, PskSetS=[[], [0], [1], [2]], Depth=8, MaxFail=3, EmitEdges=True)
+        sm = dict(FullRollback=True, PatSetS=BASE, PskSetS=[[], [0], [1], [2]], Depth=8, MaxFail=3, EmitEdges=True, HfsS=False)
         sessions = 5000000
     t2 = run_tlc("MC_StateMachine", sm, invariants=["InvS"], name="c10-sm", timeout=3000, view="ViewS",
                  action_constraint="EmitEdge")
     r2 = replay("C10", t2, seed, 1, threads=14)
-    t3 = run_tlc("MC_Builder", dict(FullRollback=True, PatSetB=["NN", "XX", "K", "I1K1"], BuilderDhs=["25519", "P256"]), invariants=["PrereqSane"],
+    t3 = run_tlc("MC_Builder", dict(FullRollback=True, PatSetB=["NN", "XX", "K", "I1K1"], BuilderDhs=["25519", "P256"], HfsB=False), invariants=["PrereqSane"],
                  name="c10-builder", workers=1, timeout=1200)
     r3 = replay("C10", t3, seed, 1, threads=14)
     t4 = transport("c10-transport", MaxSend=1, Depth=3, BadBudget=2, SetBudget=1, RekeyBudget=1, SmallBufs=True)
@@ -938,10 +984,90 @@ def c18(tier, seed):
                              "nonce layouts, default rekey)"])
 
 
+# ---------------------------------------------------------------- the hfs build
+INTER = [p for p in ALL_PATTERNS if p not in ("N", "K", "X")]
+SUB8 = ["NN", "NK", "XX", "IK", "KK", "X1X1", "IX", "XK1"]
+RULE_HFS = ("; HFS BUILD: the same kind of scenarios for names with the hfs modifier and KEM Kyber1024 (tokens e1, ekem1; "
+            "spec/NoisePatterns.tla HfsBase) replayed on a second harness built against /repo with features "
+            "hfs,use-pqcrypto-kyber1024; KEM public keys, ciphertexts and secrets are oracle terms bound to what the "
+            "recorded KEM object produced, everything around them (what is encrypted, hashed and mixed, in which order, "
+            "lengths, failure causes, rollback) is compared byte for byte")
+
+
+def hfs_legs(prop, tier, seed):
+    """(tlc runs, replay results) of the hfs-build legs of a property; ([], []) if it has none."""
+    q = tier == "quick"
+    S = []      # (name, session constants, per_scn, backends)
+    if prop in ("C01", "C17"):
+        S.append(("honest", dict(PatSet=INTER, PskMode="none" if q else "all", Variants=["tr", "sl"]), 1 if q else 3, "default"))
+    elif prop == "C02":
+        S.append(("honest", dict(PatSet=SUB8 if q else INTER, PskMode="single", PubLens=[32] if q else [32, 65],
+                                 Profiles=["zero", "max"] if q else ["zero", "small", "mid", "kilo", "max"],
+                                 BufModes=["exact"] if q else ["big", "exact"]), 1 if q else 2, "default"))
+    elif prop == "C03":
+        S.append(("tamper", dict(PatSet=INTER, PskMode="none" if q else "single", PubLens=[32], Variants=["tr"], TamperBudget=1,
+                                 TrafficMode="short"), 1, "default"))
+    elif prop == "C06":
+        S.append(("faults", dict(PatSet=SUB8 if q else INTER, FaultBudget=1, FaultKinds=["wbuf", "wmax", "turn", "routbuf", "ralt", "rtrunc"],
+                                 PubLens=[32], InitPads=[False], Variants=["tr"], TrafficMode="short"), 1, "default"))
+    elif prop == "C07":
+        S.append(("faults", dict(PatSet=SUB8 if q else INTER, FaultBudget=1, PskMode="none" if q else "single", PubLens=[32],
+                                 InitPads=[False], Variants=["tr"], TrafficMode="short"), 1, "default"))
+    elif prop == "C08":
+        S.append(("mismatch", dict(PatSet=INTER, PskMode="single", PubLens=[32], Variants=["tr"], TrafficMode="short",
+                                   Mismatches=["prologue", "psk", "rs_i", "rs_r", "rs_i_bit", "rs_r_bit"]), 1, "default"))
+    elif prop == "C10":
+        S.append(("faults", dict(PatSet=["NN", "XX", "IK"] if q else INTER, FaultBudget=1, PubLens=[32] if q else [32, 65],
+                                 InitPads=[False], Variants=["tr"], TrafficMode="short"), 1 if q else 2, "default"))
+    elif prop == "C14":
+        S.append(("lengths", dict(PatSet=SUB8 if q else INTER, PskMode="single", PubLens=[32], Profiles=["zero", "max"],
+                                  BufModes=["exact"], Variants=["tr"], TrafficMode="short"), 1, "default"))
+        S.append(("lenfaults", dict(PatSet=SUB8 if q else INTER, FaultBudget=1, FaultKinds=["wbuf", "wmax", "rtrunc", "rext"],
+                                    PubLens=[32], InitPads=[False], Variants=["tr"], TrafficMode="short"), 1, "default"))
+    elif prop == "C19":
+        S.append(("leak", dict(PatSet=SUB8 if q else INTER, FaultBudget=1, FaultKinds=["ralt", "rtrunc", "rleak"], Profiles=["mid"],
+                               PubLens=[32], InitPads=[False], Variants=["tr"], TrafficMode="short"), 1, "default"))
+    elif prop == "C20":
+        S.append(("backends", dict(PatSet=SUB8 if q else INTER, PskMode="single", PubLens=[32], Profiles=["mid"],
+                                   Variants=["tr", "sl"]), 1, "mix-sample" if q else "mix"))
+    tl, rl = [], []
+    for nm, consts, per, bk in S:
+        t = session(f"{prop.lower()}-hfs-{nm}", Hfs=True, **consts)
+        rl.append(replay(prop, t, seed, per, threads=14, backends=bk, hfs=True))
+        tl.append(t)
+    if prop == "C11":
+        c = dict(FullRollback=True, PatSetS=["NN", "XX", "IK", "X1X1"] if q else INTER, PskSetS=[[], [0]] if q else [[], [0], [2]],
+                 Depth=6 if q else 7, MaxFail=2, EmitEdges=True, HfsS=True)
+        t = run_tlc("MC_StateMachine", c, invariants=["InvS"], name="c11-hfs-sm", timeout=3000, view="ViewS",
+                    action_constraint="EmitEdge")
+        rl.append(replay(prop, t, seed, 1, threads=14, dh="25519", hfs=True))
+        tl.append(t)
+    if prop == "C12":
+        t = run_tlc("MC_Builder", dict(FullRollback=True, PatSetB=BASE, BuilderDhs=["25519", "P256"], HfsB=True),
+                    invariants=["PrereqSane"], name="c12-hfs-builder", workers=1, timeout=1200)
+        rl.append(replay(prop, t, seed, 1, threads=14, hfs=True))
+        tl.append(t)
+    return tl, rl
+
+
+def with_hfs(prop, fn):
+    def run(tier, seed):
+        global _EXTRA
+        tl, rl = hfs_legs(prop, tier, seed)
+        _EXTRA = (tl, rl, RULE_HFS) if tl else None
+        try:
+            return fn(tier, seed)
+        finally:
+            _EXTRA = None
+    return run
+
+
 CHECKS = {
     "C01": c01, "C02": c02, "C03": c03, "C04": c04, "C05": c05, "C06": c06, "C07": c07, "C08": c08, "C09": c09, "C10": c10, "C11": c11, "C12": c12, "C13": c13,
     "C14": c14, "C15": c15, "C16": c16, "C17": c17, "C18": c18, "C19": c19, "C20": c20,
 }
+for _p in ("C01", "C02", "C03", "C06", "C07", "C08", "C10", "C11", "C12", "C14", "C17", "C19", "C20"):
+    CHECKS[_p] = with_hfs(_p, CHECKS[_p])
 
 
 def selftest(tier, seed):
